@@ -298,6 +298,14 @@ theorem C04_end_keeps_observers_right (ops : List Op) (outs : List Out) (closes 
   simp only [seenOf, dropClient_sess _ s y l hne] at this ⊢
   exact this
 
+/-- **Views change through join / leave events only.**  Whatever else is written to a session or published to a room
+(messages, participant lists, room notices, permissions, errors, bye) leaves every session's view as it is. -/
+theorem C04_views_change_by_events_only (a : Acc) (k : Nat) :
+    (∀ l m, (∀ ss, m ≠ .join ss) → (∀ ss, m ≠ .leave ss) → seenOf (sendTo a l m).h k = seenOf a.h k) ∧
+    (∀ b r am, (∀ ss, am ≠ .msg (.join ss)) → (∀ ss, am ≠ .msg (.leave ss)) →
+      seenOf (pubRoom a b r am).h k = seenOf a.h k) :=
+  ⟨fun l m hj hl => sendTo_seenOf_other a l m hj hl k, fun b r am hj hl => pubRoom_seenOf_other a b r am hj hl k⟩
+
 /-- Non-vacuity / witness: in the demo history below every observer's view is its room's member set, and the
 publication theorem's premises are met by two sessions. -/
 example : viewBad (run {} [.connect 1, .connect 2, .hello 1 0 .client "alice" false false,
